@@ -1,41 +1,38 @@
 (* C19, printf part: printf_format + do_printf_* produce byte for byte what ISO C prescribes.
 
-   FULL STATEMENT (DESIGN Appendix A):
-     Theorem C19_printf_conforms :
-       forall (d : directive) (v : argval), in_grammar d = true -> fits d v = true ->
-         frigg_printf d v = Ok (iso_printf d v).
-   with in_grammar = %[n$][-+ #0']*[width|*][.prec|.*][hh|h|l|ll|z|t|j]{d,i,u,o,x,X},
-   %[n$][-][width|*][.prec|.*]{c,s}, %p, %%  (IsoPrintf.in_grammar), frigg_printf = the model of
-   printf_format/do_printf_*/print_int run on the rendering of d with the arguments of v.
+   C19_printf_conforms is the FULL statement of DESIGN Appendix A: for every directive of the grammar
+     %[n$][-+ #0']*[width|*][.prec|.*][hh|h|l|ll|z|t|j]{d,i,u,o,x,X}, %[n$][-][width|*][.prec|.*]{c,s}, %[n$]p, %%
+   (IsoPrintf.in_grammar: any flag list incl. order and repetition; literal width 1..INT_MAX, precision 0..INT_MAX,
+   "." alone, "*" / ".*" with any int incl. negative ones; n in 1..9, not combined with "*" as in POSIX) and every
+   argument value of the promoted type (IsoPrintf.fits; INT_MIN as a "*" width and null pointers are outside ISO's
+   defined behaviour), the model of printf_format / pop_arg / do_printf_* / print_int run on the rendering of the
+   directive returns Ok with exactly the bytes of the independent specification IsoPrintf.iso_printf.
+   For n$ the argument is the n-th of n arguments of the directive's type (frigg_printf / PrintfConform.args_of).
 
-   PROVED: C19_printf_conforms_partial = the full statement for every directive WITHOUT the n$ prefix
-   (d_pos d = None): every flag list (any subset, order, repetition), every literal width 1..INT_MAX and
-   precision 0..INT_MAX, '*' and '.*' with every int (negative included, INT_MIN width excluded by fits),
-   every length modifier, every value of the promoted argument type.  After the fix: commits of
-   D24-D30 and D40 no class of deviations is left among these directives (the first version of this
-   file carried one _refuted witness per class; see comp/printf/NOTES.md).
-   MISSING for the full statement: directives with n$ (positional).  For a single positional directive
-   the model is exercised by the check only; for formats with several positional directives the
-   statement is FALSE when arguments of different types are skipped over (D33, known, not repaired):
-   C19_printf_positional_refuted_D33 below. *)
+   On the unrepaired tree this was false in the ways D24-D30 and D40 (the first version of this file carried one
+   vm_compute _refuted witness per class, each replayed on the real code before its fix: commit; see
+   comp/printf/NOTES.md); after the fixes no class of deviating directives is left, so there is no
+   `deviates` side condition any more.  What remains known (D33) concerns FORMATS with several positional
+   directives whose arguments have different types - outside the quantifier of this statement, inside the
+   property's text: C19_printf_positional_refuted_D33. *)
 From Coq Require Import String.
 From Coq Require Import NArith ZArith List Bool.
 From FV Require Import Printf.PrintIntModel Printf.PrintfModel Printf.IsoPrintf Printf.PrintfConform
-  Printf.PrintIntProofs Printf.PrintfConformProofs.
+  Printf.PrintIntProofs Printf.PrintfConformProofs Printf.PrintfConformGen.
 Import ListNotations.
 Local Open Scope Z_scope.
 
-Theorem C19_printf_conforms_partial :
+Theorem C19_printf_conforms :
   forall (d : directive) (v : argval),
-    d_pos d = None -> in_grammar d = true -> fits d v = true ->
+    in_grammar d = true -> fits d v = true ->
     frigg_printf d v = Ok (iso_printf d v).
-Proof. exact printf_conforms_nopos. Qed.
-Print Assumptions C19_printf_conforms_partial.
+Proof. exact printf_conforms. Qed.
+Print Assumptions C19_printf_conforms.
 
-(* non-vacuity: the former witnesses of D24-D30 and D40 meet the hypotheses, and the outputs are
-   the padded / signed / prefixed ones *)
+(* non-vacuity: the former witnesses of D24-D30 and D40 and a positional directive meet the hypotheses, and the
+   outputs are the padded / signed / prefixed ones *)
 Example C19_printf_conforms_examples :
-  let ok d v := (d_pos d = None /\ in_grammar d = true /\ fits d v = true) in
+  let ok d v := (in_grammar d = true /\ fits d v = true) in
   ok (mk_dir None [FZero] (WLit 5) PNone LNone Cd) (mk_av 0 0 (-12) [])
   /\ iso_printf (mk_dir None [FZero] (WLit 5) PNone LNone Cd) (mk_av 0 0 (-12) []) = [45; 48; 48; 49; 50]%N       (* "-0012" *)
   /\ ok (mk_dir None [FHash; FMinus] WStar PStar Lll CX) (mk_av (-9) 4 255 [])
@@ -43,7 +40,10 @@ Example C19_printf_conforms_examples :
      = [48; 88; 48; 48; 70; 70; 32; 32; 32]%N                                                                     (* "0X00FF   " *)
   /\ ok (mk_dir None [FMinus] (WLit 6) (PLit 2) LNone Cs) (mk_av 0 0 0 [104; 105; 33; 0]%N)
   /\ iso_printf (mk_dir None [FMinus] (WLit 6) (PLit 2) LNone Cs) (mk_av 0 0 0 [104; 105; 33; 0]%N)
-     = [104; 105; 32; 32; 32; 32]%N.                                                                              (* "hi    " *)
+     = [104; 105; 32; 32; 32; 32]%N                                                                               (* "hi    " *)
+  /\ ok (mk_dir (Some 3%N) [FPlus; FQuote] (WLit 4) PNone Lhh Cd) (mk_av 0 0 300 [])
+  /\ frigg_printf (mk_dir (Some 3%N) [FPlus; FQuote] (WLit 4) PNone Lhh Cd) (mk_av 0 0 300 [])
+     = Ok [32; 43; 52; 52]%N.                                                                                     (* " +44" *)
 Proof. repeat split; reflexivity. Qed.
 
 (* D33 (known): "%2$d %1$ld" with (long 6000000000, int 7): ISO/POSIX print "7 6000000000"; frigg fetches
